@@ -491,15 +491,33 @@ def job_shipped_bounded(kind, asc):
               multiple_gaussian=lambda: f_profiles.multiple_gaussian_f_profile(w))[kind]
     pl = dict(fn='shipped_bounded', kind=kind, asc=asc)
 
+    phase = Sym(z3.Real('phase'))
+
     def run():
         out = []
         for bounded in (True, False):
             fr = make_frame(T, Fc, asc, Sym(RV(g['df'])), Sym(RV(g['dt'])), Sym(RV(g['fch1'])))
             kw = dict(bounding_f_range=(fr.get_frequency(a), fr.get_frequency(b))) if bounded else {}
-            out.append(fr.add_signal(paths.constant_path(f0, 0), t_profiles.constant_t_profile(1), mk(), None, **kw))
+            ts0, fs0 = list(fr.ts), list(fr.fs)
+            # (a shipped time profile with a phase, too: the frame's own axes are handed to the profiles as they are)
+            out.append(fr.add_signal(paths.constant_path(f0, 0), t_profiles.sine_t_profile(Sym(RV(8.0)), phase, 1, 2), mk(), None, **kw))
+            AXES.append((ts0, list(fr.ts), fs0, list(fr.fs)))
         return out
+    AXES = []
     with frame_patches():
         leaves = core.explore(run, pre, cap=60)
+    # the frame's time and frequency axes are what they were (shipped profiles do not write into their arguments)
+    dis_ax = []
+    for ts0, ts1, fs0, fs1 in AXES:
+        if len(ts0) != len(ts1) or len(fs0) != len(fs1):
+            dis_ax.append(z3.BoolVal(True))
+        else:
+            dis_ax += [z3.simplify(lift(x) - lift(y), som=True) != 0 for x, y in zip(ts0 + fs0, ts1 + fs1)]
+    dis_ax = [c for c in dis_ax if not z3.is_false(z3.simplify(c))]
+    r, _ = core.check(pre + ([z3.Or(*dis_ax)] if dis_ax else [z3.BoolVal(False)]), timeout_ms=30000)
+    recs.append(q(tag + ':axes-unchanged', r, by_solver=len(dis_ax)))
+    if r == 'sat':
+        recs.append(cex('C06:shipped-bounded:axes', f'injecting with the shipped sine time profile (phase != 0) and the {kind} profile changed the frame\'s own time / frequency axis', dict(pl, axes=True), name=tag + ':axes-unchanged'))
     conds = []
     for li, leaf in enumerate(leaves):
         conds.append(leaf.cond())
@@ -541,8 +559,11 @@ def replay_shipped_bounded(p):
         w = 9.0
         prof = lambda: dict(box=lambda: stg.box_f_profile(w), sinc2=lambda: stg.sinc2_f_profile(w), gaussian=lambda: stg.gaussian_f_profile(w), lorentzian=lambda: stg.lorentzian_f_profile(w),
                             voigt=lambda: stg.voigt_f_profile(w, w), multiple_gaussian=lambda: stg.multiple_gaussian_f_profile(w))[p['kind']]()
-        kw = dict(path=stg.constant_path(fr.fmin + centre * fr.df, 0.01), t_profile=stg.constant_t_profile(2.0), bp_profile=stg.constant_bp_profile(1.0))
+        kw = dict(path=stg.constant_path(fr.fmin + centre * fr.df, 0.01), t_profile=stg.sine_t_profile(8.0, 2.5, 1, 2), bp_profile=stg.constant_bp_profile(1.0))
+        ts0, fs0 = fr.ts.copy(), fr.fs.copy()
         sig = fr.add_signal(f_profile=prof(), bounding_f_range=(fr.get_frequency(a), fr.get_frequency(b)), **kw)
+        if not (np.array_equal(fr.ts, ts0) and np.array_equal(fr.fs, fs0)):
+            msgs.append(f"the frame's time axis starts at {fr.ts[0]!r} after an injection with sine_t_profile(phase=2.5) (before: {ts0[0]!r})")
         full = fu.add_signal(f_profile=prof(), **kw)
         want = np.zeros_like(full)
         want[:, a:b] = full[:, a:b]
